@@ -75,6 +75,10 @@ def parseScript (toks : List String) : (Nat × Nat) × List DOp :=
     | ["drdbw", a, b] => (acc.1, acc.2 ++ [.newRdbWriter a.toNat! b.toNat!])
     | ["drdba", h] => (acc.1, acc.2 ++ [.rdbAppend ((Hex.decode h).getD [])])
     | ["drdbc"] => (acc.1, acc.2 ++ [.rdbClose])
+    -- a chunk that was received but never written (writer stopped before the
+    -- write / the write failed): for the files it is a close without the chunk
+    | ["drdbx", _] => (acc.1, acc.2 ++ [.rdbClose])
+    | ["drdbf", _] => (acc.1, acc.2 ++ [.rdbClose])
     | ["daofw", a] => (acc.1, acc.2 ++ [.newAofWriter a.toNat!])
     | ["daofa", h] => (acc.1, acc.2 ++ [.aofAppend ((Hex.decode h).getD [])])
     | ["daofc"] => (acc.1, acc.2 ++ [.aofClose])
